@@ -57,6 +57,11 @@ def gen_cases(tier, seed):
                     term=str(rng.choice(["mixed", "mixed", "none", "all"])),
                     h=int(rng.integers(1, 5)), seed=int(rng.integers(1 << 30)),
                     cost=8 if loss in ("encoder", "mrq", "td7_critic") else 3))
+                if r == 0:
+                    # one case per (loss, N) that is informative by construction:
+                    # mixed terminations, discounting on, window of 2-4 steps
+                    cases[-1].update(term="mixed", gamma=float(rng.choice([0.5, 0.99])),
+                                     h=2 + N % 3)
     return cases
 
 
@@ -306,7 +311,12 @@ def make_setup(case, rng):
         tm = np.zeros((N, h), np.int32)
         for b in range(N):
             if term[b]:
-                tm[b, rng.integers(h)] = 1
+                # positions rotate over the window, so that every run has
+                # terminations followed by non-terminated flags (and, for
+                # h >= 3, two terminations in one window)
+                tm[b, b % h] = 1
+                if h >= 3 and b % 3 == 0:
+                    tm[b, h - 1] = 1
         inp["term"] = tm
         S.row_keys.append("nact")
         S.successor_keys.append("nact")
@@ -400,7 +410,12 @@ def make_setup(case, rng):
         tm = np.zeros((N, h), np.int32)
         for b in range(N):
             if term[b]:
-                tm[b, rng.integers(h)] = 1
+                # positions rotate over the window, so that every run has
+                # terminations followed by non-terminated flags (and, for
+                # h >= 3, two terminations in one window)
+                tm[b, b % h] = 1
+                if h >= 3 and b % 3 == 0:
+                    tm[b, h - 1] = 1
         inp["term"] = tm
         wd, wr, wdn = (float(rng.choice([1.0, 1.0, 0.0, 0.5])),
                        float(rng.choice([0.0, 0.1, 1.0])),
